@@ -160,7 +160,19 @@ let run_model file =
   let fuel = nat_of_int 4000 in
   run_cases file (fun _ -> init)
     (fun st _ toks ->
-       if st.stuck then st else begin
+       if st.stuck then st
+       else if (match toks with "opts" :: _ -> true | _ -> false) then begin
+         emit (state_line st); st      (* socket options: no effect on what the loop does *)
+       end
+       else if (match toks with "mt" :: _ -> true | _ -> false) then begin
+         (* rounds on the real kernel with real threads: the expected outcome of every round is that run() returns when,
+            and only when, interrupt() was called (the model: interrupt, then run [] ends with EvRunRet) *)
+         let st' = List.fold_left (fun st _ -> step fuel (step fuel st (OAct AInterrupt)) (ORun [])) st (List.tl toks) in
+         List.iteri (fun k tok ->
+             emit (Printf.sprintf "mt %d %s %s" (k + 1) tok (if st'.stuck || st'.intr then "FAIL model" else "ok"))) (List.tl toks);
+         emit "mt end";
+         st
+       end else begin
          let n0 = List.length st.trace in
          let st' = step fuel st (parse_op toks) in
          let evs = List.rev st'.trace in
